@@ -6,6 +6,7 @@ import LW.Driver.Canon
 import LW.Generated.Registry
 import LW.Model.Base64
 import LW.Model.Exchange
+import LW.Model.NetID
 namespace LW.Driver
 open LW LW.Canon
 
@@ -118,6 +119,27 @@ def runOp (st : DState) (op : String) (args : List String) : DState × String :=
   | "decja" => (st, withArgs args (do let k ← key; let p ← frame; pure (k, p)) fun (k, p) => frameOut (p.decryptJA E k))
   | "phydecodefopts" => (st, withArgs args frame fun p => frameOut (p.decodeFOpts st.reg))
   | "phydecodefrm" => (st, withArgs args frame fun p => frameOut (p.decodeFRM st.reg))
+  | "setprefix" => (st, withArgs args (do let n ← nat; let a ← nat; pure (n, a)) fun (n, a) =>
+      s!"ok {(setAddrPrefix (BitVec.ofNat 32 a) (BitVec.ofNat 24 n)).toNat}")
+  | "isnetid" => (st, withArgs args (do let n ← nat; let a ← nat; pure (n, a)) fun (n, a) =>
+      if isNetID (BitVec.ofNat 32 a) (BitVec.ofNat 24 n) then "ok 1" else "ok 0")
+  | "nwkid" => (st, withArgs args nat fun a =>
+      match devAddrNwkID (BitVec.ofNat 32 a) with
+      | some b => s!"ok {devAddrNetIDType (BitVec.ofNat 32 a)} {hx b}"
+      | none => s!"ok {devAddrNetIDType (BitVec.ofNat 32 a)} nil")
+  | "netidinfo" => (st, withArgs args nat fun n =>
+      s!"ok {netIDType (BitVec.ofNat 24 n)} {hx (netIDIDBytes (BitVec.ofNat 24 n))}")
+  | "idrepr" => (st, withArgs args (do let k ← next; let b ← hex; pure (k, b)) fun (_, b) =>
+      let k := b.length
+      let v := leNat b.reverse
+      s!"ok t{idText k v} {hx (idBinary k v)} {hx (idBytes k v)}")
+  | "idparse" => (st, withArgs args (do let k ← next; let how ← next; let a ← next; pure (k, how, a)) fun (k, how, a) =>
+      let len := if k == "EUI64" then 8 else if k == "DevAddr" then 4 else if k == "NetID" then 3 else 16
+      let out (o : Outcome Nat) : String := fmtOut (fun v => hx (idBytes len v)) o
+      if how == "text" then out (idOfText len (sdrop a 1))
+      else if how == "bin" then (match unhx a with | some b => out (idOfBinary len b) | none => badop "hex")
+      else if how == "scan" then (match unhx a with | some b => out (idOfScan len b) | none => badop "hex")
+      else "ERR")
   | "exchange" => (st, withArgs args (do
         let v ← nat; let c ← nat; let dr ← nat; let ch ← nat; let fk ← key; let sk ← key; let ek ← key; let ak ← key
         let t ← nat; let p ← frame
